@@ -50,8 +50,45 @@ def gen_based(fn, radix, alphabet, tier):
     return h
 
 
+def gen_rational(domain, tier):
+    """rational() on one-digit numerator and denominator tokens (64-bit gcd + two 64-bit divisions inside Ratio::new: two-digit
+    numerators ran CBMC out of its 10 GB cap)"""
+    dig = " || ".join("(c == '%d')" % d for d in range(10))
+    b = ["let a0: char = kani::any(); let b0: char = kani::any();",
+         "kani::assume({ let c = a0; %s }); kani::assume({ let c = b0; %s });" % (dig, dig),
+         "let n: u8 = a0.to_digit(10).unwrap() as u8; let d: u8 = b0.to_digit(10).unwrap() as u8;",
+         "kani::assume(%s);" % ("d != 0" if domain == "accept" else "d == 0"),
+         "let nt = Token { kind: TokenKind::Digit, chars: vec![a0], src_range: SourceRange::default() };",
+         "let dt = Token { kind: TokenKind::Digit, chars: vec![b0], src_range: SourceRange::default() };",
+         "let pair = (nt, dt);",
+         "kani::cover!(true, \"VP:reached-call\");",
+         "let v = rational(&pair);"]
+    if domain == "accept":
+        b += ["match &v { Value::R64(x) => { let r = *x.borrow(); let (p64, q64) = (*r.numer(), *r.denom());",
+              "    assert!(p64 >= 0 && p64 <= 9 && q64 >= 1 && q64 <= 9, \"VP:literal-evaluates-to-other-number\");",
+              "    let (p, q) = (p64 as u8, q64 as u8);",
+              "    assert!(p * d == n * q, \"VP:literal-evaluates-to-other-number\");",
+              "    let mut g = 2u8; let mut reduced = true; while g <= 9 { if p % g == 0 && q % g == 0 { reduced = false; } g += 1; }",
+              "    assert!(reduced, \"VP:rational-literal-not-reduced\");",
+              "    kani::cover!(p != n, \"VP:reached-reduction\"); },",
+              "  _ => { assert!(false, \"VP:wrong-literal-kind\"); } }",
+              "kani::cover!(true, \"VP:reached\");"]
+    else:
+        b += ["assert!(false, \"VP:accepted-rational-with-zero-denominator\");"]
+    b += ["forget(v); forget(pair);"]
+    h = H("c13_rational_%s" % domain, "    " + "\n    ".join(b), WHERE, domain=domain, key="rational/%s" % domain,
+          desc="rational() on any one-digit numerator and one-digit %s denominator: %s" % ("non-zero" if domain == "accept" else "zero",
+               "the reduced fraction n/d (cross-multiplied equality, positive denominator, no common factor)" if domain == "accept" else "rejected (panic -> error), never a value"),
+          functions=["rational (src/interpreter/src/literals.rs)", "str::parse::<i64>", "num_rational::Ratio::new"], bounds="numerator 0-9, denominator 0-9",
+          unwind=12, tier=tier, solver="kissat")
+    h.slice = SLICE + ",rational,r64"
+    return h
+
+
 def plan(tier, seed):
     hs = []
+    hs.append(gen_rational("accept", "quick"))
+    hs.append(gen_rational("reject", "quick"))
     for t in ["u8", "i8", "u16", "i16", "u32", "i32"]:
         hs.append(gen_typed(t, "quick" if t in ("u8", "i16", "u32") else "thorough"))
     for t in ["u64", "i64", "u128", "i128"]:
@@ -63,10 +100,11 @@ def plan(tier, seed):
     return {
         "harnesses": hs,
         "explanation": "Kani/CBMC over the value stage of typed integer literals (n as f64 -> real f64->K conversion struct) for every integer "
-                       "kind with the denoted integer n symbolic, and over dec/hex/oct/binary() on symbolic two-digit tokens",
+                       "kind with the denoted integer n symbolic, over dec/hex/oct/binary() on symbolic two-digit tokens and over rational() on a symbolic "
+                       "one-digit numerator and denominator (reduced fraction; zero denominator rejected)",
         "bounds": "n: all u64 (kinds <= 64 bit) / all u128 (128-bit kinds); based literals: two digits",
         "outside": ["decimal floats and scientific notation (dec2flt and libm pow are not modelled bit-precisely by CBMC)",
-                    "spelling -> token (src/syntax/src/literals.rs is parser code)", "rational and complex literals", "negated literals",
+                    "spelling -> token (src/syntax/src/literals.rs is parser code)", "complex literals", "rational literals beyond one-digit tokens", "negated literals",
                     "underscores in digit strings", "which conversion struct impl_conversion_fxn picks (decided in C12 L2 for a sample)"],
         "caps": {"quick_timeout": 600, "thorough_timeout": 1200},
     }
